@@ -272,7 +272,7 @@ namespace c16
     TestSpace test_space(*e.trafo); TrialSpace trial_space(*e.trafo);
     const int d1 = int(c.rng.below(dim));
     const int nk = SDtrial_::has_grad ? 6 : 4;
-    switch(c.rng.below(std::uint64_t(nk)))
+    switch(c.k % std::uint64_t(nk))
     {
     case 0: { Assembly::Common::IdentityOperator op; Form f = form_identity<dim>(); f.mass = false; f.sym = false; check_bilinear2<Shape_, SDtest_, SDtrial_, CSRd>(c, e, test_space, trial_space, op, f); break; }
     case 1: { Assembly::Common::TestDerivativeOperator op(d1); Form f = form_test_deriv<dim>(d1); c.tag("deriv:" + std::to_string(d1)); check_bilinear2<Shape_, SDtest_, SDtrial_, CSRd>(c, e, test_space, trial_space, op, f); break; }
